@@ -401,7 +401,9 @@ fn family() -> Vec<[u8; NS]> {
     set.into_iter().collect()
 }
 
-fn ops(thorough: bool, seed: u64) -> Vec<Op> {
+/// The cases of one block of the space (blocks: 0 = everything except the per-version
+/// family, 1000 + v = the 29-byte strings of version v); generated inside the workers.
+fn ops(thorough: bool, seed: u64, block: usize) -> Vec<Op> {
     let mut ops: Vec<Op> = vec![];
     let mut fill = Fill::new(seed, 0xC14);
     let pat: [u8; 28] = {
@@ -412,6 +414,7 @@ fn ops(thorough: bool, seed: u64) -> Vec<Op> {
     let vals: Vec<u8> = if thorough { (0..=255).collect() } else { vec![0x00, 0x01, 0x7f, 0x80, 0xff] };
     let max_len = if thorough { 64 } else { 40 };
 
+    if block == 0 {
     // from_raw: every length, four fillings
     for len in 0..=max_len {
         for f in 0..4 {
@@ -427,12 +430,13 @@ fn ops(thorough: bool, seed: u64) -> Vec<Op> {
             ops.push(Op::FromRaw { bytes: hx(&b) });
         }
     }
+    }
     // from_raw / new: every version x {valid v0 id, valid v255 id, zeros, id with every single
     // byte position set to each value of `vals`}
     let v0_id = pat;
     let mut v255_id = [0xffu8; 28];
     v255_id[27] = 0x5a;
-    for version in 0..=255u8 {
+    for version in (0..=255u8).filter(|v| block == 1000 + *v as usize) {
         let all_positions = version == 0 || version == 255 || thorough;
         let mut ids: Vec<[u8; 28]> = vec![v0_id, v255_id, [0; 28], [0xff; 28]];
         for base in [v0_id, v255_id] {
@@ -459,6 +463,7 @@ fn ops(thorough: bool, seed: u64) -> Vec<Op> {
             }
         }
     }
+    if block == 0 {
     // new / new_v0 / new_v255: ids of every length 0..=max_len, fillings zeros / ff / 01.. / seeded
     for len in 0..=max_len {
         for f in 0..5 {
@@ -554,6 +559,7 @@ fn ops(thorough: bool, seed: u64) -> Vec<Op> {
             ops.push(Op::Order { a: hx(a), b: hx(b) });
         }
     }
+    }
     ops
 }
 
@@ -581,9 +587,22 @@ fn main() {
                 rep.violation("reserved-mismatch", format!("constant {name} = {} (reserved {}), expected {}", hx(got.as_bytes()), got.is_reserved(), hx(&want)), json!({"constant": name}));
             }
         }
-        let all = ops(!ctx.quick(), ctx.seed);
         rep.extra("family_size", json!(family().len()));
-        let r2 = par_cases(all, |op, rep| eval(&op, rep));
+        let thorough = !ctx.quick();
+        let seed = ctx.seed;
+        let blocks: Vec<usize> = std::iter::once(0).chain((0..256).map(|v| 1000 + v)).collect();
+        let r2 = par_cases(blocks, |block, rep| {
+            let all = ops(thorough, seed, block);
+            if block == 0 {
+                // the big block: evaluate its cases in parallel as well
+                let r = par_cases(all, |op, rep| eval(&op, rep));
+                rep.merge_in(r);
+            } else {
+                for op in &all {
+                    eval(op, rep);
+                }
+            }
+        });
         rep.merge(r2)
     };
     finish(
